@@ -26,6 +26,11 @@ def run(ctx):
     from . import callsigs as _cs
     from . import findings3 as _f3
     _f3.dtype_lookup(ctx, 'R17.13')
+    r1714(ctx, api)
+    from . import c14 as _c14b
+    _c14b.r145(ctx, 'R17.16')    # the recorded number of categories is the numeric maximum over the chunks
+    from . import append_route as _ar
+    _ar.forget_then_rebuild_rule(ctx, 'R17.15')
     _cs.general_rules(ctx, 'R17', ['api.ParquetFile', 'api._pre_allocate', 'core.read_row_group_arrays', 'core.read_row_group', 'dataframe'])
 
 
@@ -331,3 +336,23 @@ def r1712(ctx, rule='R17.12'):
                    '`%s` stores the scalar %s, not a dtype: what the handle reports does not compare equal to the dtype of the '
                    'frame it reads' % (norm(st), norm(v)), api.loc(st))
     ctx.floor(rule, 'dtype stores in _dtypes', n, 4)
+
+
+def r1714(ctx, api, rule='R17.14'):
+    """count() (and info['rows'] through it) reports what a read would give: the rows of the row groups that a read
+    selects - summed from the row groups, or counted from the row mask - never the total stored in the footer, which a
+    file from another writer (or an edited handle) may carry out of step with its row groups"""
+    from ..model import return_values
+    f = api.func('ParquetFile.count')
+    vals = [norm(v) for v in return_values(f)]
+    bad = [v for v in vals if 'fmd.num_rows' in v or v.endswith('.num_rows') and 'for rg in' not in v]
+    summed = [v for v in vals if v.startswith('sum(') and 'rg.num_rows for rg in' in v]
+    masked = [v for v in vals if v.endswith('.sum()')]
+    ctx.ob(rule, 'api.count:rows-counted-from-the-selected-row-groups-or-the-mask', not bad and bool(summed) and len(summed) + len(masked) == len(vals),
+           'count() returns: %s' % vals, api.loc(f))
+    # ... and the row groups it sums are the ones the filters select
+    srcs = [norm(s_.value) for s_ in ast.walk(f) if isinstance(s_, ast.Assign) and norm(s_.targets[0]) == 'rgs']
+    ctx.ob(rule, 'api.count:row-groups-selected-by-the-filters', any(v == 'filter_row_groups(self, filters)' for v in srcs) or
+           any('filter_row_groups(self, filters)' in v for v in summed), str(srcs), api.loc(f))
+    inf = api.func('ParquetFile.info')
+    ctx.ob(rule, 'api.info:rows-is-count()', "'rows': self.count()" in norm(inf.body[-1]), '', api.loc(inf))
